@@ -218,6 +218,7 @@ def owners(m):
         if 'forbid' in ctx: o.add('C07')
         if 'mon' in ctx: o.add('C13')
         if 'seq' in ctx: o.add('C05')
+        if 'threw' in ctx: o.add('C08')
     elif a == 'seq.completed':
         o |= {'C06'}
     elif a == 'eol.reports':
